@@ -34,10 +34,13 @@ var c19Files = []string{
 	"k: a\nBenchmarkA 1 1 ns/op\nby:\nupload-part:\nupload: other\nupload-file:\nupload-time:\nBenchmarkA 1 2 ns/op\nk: b\nBenchmarkA 1 3 ns/op\n",
 	// a ladder of values of one key (for conjunctions of several range terms on that key)
 	"k: a\nBenchmarkL 1 1 ns/op\nk: b\nBenchmarkL 1 2 ns/op\nk: c\nBenchmarkL 1 3 ns/op\nk: d\nBenchmarkL 1 4 ns/op\nk: e\nBenchmarkL 1 5 ns/op\nk: f\nBenchmarkL 1 6 ns/op\nk: g\nBenchmarkL 1 7 ns/op\nk:\nBenchmarkL 1 8 ns/op\n",
+	// configuration lines that leave the labels as they were: a label restated verbatim, a key set and removed again,
+	// a value changed and changed back — the results around them have equal labels and are ONE record
+	"k: a\nBenchmarkA 1 1 ns/op\nk: a\nBenchmarkA 1 2 ns/op\nz: 1\nz:\nBenchmarkA 1 3 ns/op\nk: b\nk: a\nBenchmarkA 1 4 ns/op\nk: b\nBenchmarkA 1 5 ns/op\n",
 }
 
 // uploads of the state alphabet: lists of file indices
-var c19Uploads = [][]int{{0}, {1}, {2}, {0, 1}, {1, 0}, {2, 3}, {4}, {5, 3}, {6}}
+var c19Uploads = [][]int{{0}, {1}, {2}, {0, 1}, {1, 0}, {2, 3}, {4, 7}, {5, 3}, {6}}
 
 // c19FileName: files are called f<i>.txt, except that the second file of upload {1, 0} and the first of {2, 3} are
 // sent without a name (allowed by the client API): each file's server labels are its own.
